@@ -8,7 +8,10 @@ use jsonrpsee_core::server::MethodResponse;
 use jsonrpsee_server::{BatchRequestConfig, ConnectionGuard, ConnectionState, HttpRequest, ServerConfig, stop_channel};
 use jsonrpsee_types::Request;
 use serde_json::{Value, json};
+use crate::sched::{self, Scenario, Status, Verdict};
+use crate::smem::{self, Conn, PeerAct, SrvCfg, SrvState};
 use std::sync::{Arc, Mutex};
+use std::time::Duration;
 
 const SENTINEL: &str = r#"{"jsonrpc":"2.0","id":"S","method":"add","params":[20,22]}"#;
 
@@ -521,4 +524,121 @@ pub fn check(rep: &Reporter) {
 			);
 		}
 	});
+	backlog_leg(rep);
+}
+
+// ---- SCHED leg: the answer to an oversized WebSocket message on a backlogged connection -------------------------------
+
+/// One WebSocket connection whose outgoing buffer has capacity 1 and whose writer task is a scheduling point (held back
+/// at will, or once): replies queue up, then an oversized frame arrives. The oversized frame must be answered -32007
+/// and must not be dispatched whatever the state of the outgoing buffer; the calls around it are served as usual.
+pub struct BacklogScenario {
+	pub name: String,
+	pub acts: Vec<PeerAct>,
+	pub buffer: u32,
+	pub low_ws: bool,
+}
+
+const BACKLOG_LIMIT: u32 = 256;
+
+impl Scenario for BacklogScenario {
+	type State = SrvState;
+	fn name(&self) -> String {
+		format!("srv_mem/oversized-backlog:{}", self.name)
+	}
+	fn config(&self) -> Value {
+		json!({"peer_script": format!("{:?}", self.acts), "message_buffer_capacity": self.buffer, "max_request_body_size": BACKLOG_LIMIT, "low_level_ws_connect": self.low_ws})
+	}
+	fn mask(&self) -> fn(&str) -> bool {
+		mask_writer
+	}
+	fn max_steps(&self) -> usize {
+		200
+	}
+	fn once_labels(&self) -> &'static [&'static str] {
+		if self.name.contains("writer-held-once") { &["server:ws:send_task:before_send"] } else { &[] }
+	}
+	fn setup(&self) -> SrvState {
+		smem::setup(&SrvCfg { conns: vec![Conn::Ws(self.acts.clone())], buffer: self.buffer, max_req: BACKLOG_LIMIT, low_ws: self.low_ws, ..Default::default() })
+	}
+	fn judge(&self, _st: SrvState, trace: &[String], panics: &[String], status: Status) -> Verdict {
+		let mut v: Vec<(String, String)> = Vec::new();
+		if status != Status::Quiescent {
+			v.push((format!("machinery:{status:?}"), format!("{status:?}")));
+		}
+		for p in panics {
+			v.push(("panic".into(), p.clone()));
+		}
+		let sent_big = trace.iter().filter(|l| l.starts_with("c0:tx:OVERSIZED")).count();
+		let sent_calls: Vec<Value> = trace.iter().filter_map(|l| l.strip_prefix("c0:tx:")).filter_map(|t| serde_json::from_str::<Value>(t).ok()).collect();
+		let rx: Vec<Value> = trace.iter().filter_map(|l| l.strip_prefix("c0:rx:")).filter_map(|t| serde_json::from_str::<Value>(t).ok()).collect();
+		let closed = trace.iter().any(|l| l == "c0:eof" || l.contains("tx-failed"));
+		let rejections = rx.iter().filter(|m| m["error"]["code"] == -32007 && m["id"].is_null()).count();
+		let handler_runs = trace.iter().filter(|l| *l == "call:add").count();
+		if closed {
+			v.push(("connection-closed".into(), "the server closed the connection although the peer only sent valid calls and oversized frames".into()));
+		}
+		if rejections < sent_big {
+			v.push((
+				format!("oversized-not-answered:buffer{}", self.buffer),
+				format!("the peer sent {sent_big} oversized frame(s) and stayed connected and reading, but received {rejections} `request too big` (-32007) rejection(s) by quiescence"),
+			));
+		}
+		if rejections > sent_big {
+			v.push(("rejection-without-oversized-frame".into(), format!("{rejections} -32007 rejections for {sent_big} oversized frames")));
+		}
+		if handler_runs != sent_calls.len() {
+			v.push(("handler-runs".into(), format!("{} ordinary calls were sent but the `add` handler ran {handler_runs} times (an oversized frame must never be dispatched, an ordinary call always)", sent_calls.len())));
+		}
+		for c in &sent_calls {
+			if !rx.iter().any(|m| m["id"] == c["id"] && m.get("result").is_some()) {
+				v.push(("call-not-answered".into(), format!("call {} was never answered", c["id"])));
+			}
+		}
+		// no reply carries the id of an oversized call (its content was never looked at)
+		if rx.iter().any(|m| m["id"].as_str().map_or(false, |s| s.starts_with("big"))) {
+			v.push(("oversized-frame-parsed".into(), "a reply carries the id of an oversized call".into()));
+		}
+		let order: Vec<String> = rx.iter().map(|m| if m["error"]["code"] == -32007 { "TOO-BIG".to_string() } else { m["id"].to_string() }).collect();
+		Verdict { violations: v, outcome: format!("{order:?}") }
+	}
+}
+
+/// harness points plus the connection writer's point
+fn mask_writer(l: &str) -> bool {
+	!l.starts_with("client:") && (!l.starts_with("server:") || l == "server:ws:send_task:before_send")
+}
+
+pub fn backlog_scenarios(thorough: bool) -> Vec<BacklogScenario> {
+	use PeerAct::*;
+	let big = Oversized(BACKLOG_LIMIT as usize + 1);
+	let huge = Oversized(BACKLOG_LIMIT as usize * 20);
+	let mut v = Vec::new();
+	let mut add = |name: &str, acts: Vec<PeerAct>, buffer: u32, low_ws: bool| v.push(BacklogScenario { name: name.to_string(), acts, buffer, low_ws });
+	add("idle-connection", vec![big.clone(), Call], 16, false);
+	add("behind-two-calls-buffer1-writer-point", vec![Call, Call, big.clone(), Call], 1, false);
+	add("behind-two-calls-buffer1-writer-held-once", vec![Call, Call, big.clone(), Call], 1, false);
+	add("two-oversized-buffer1-writer-point", vec![Call, big.clone(), huge.clone(), Call], 1, false);
+	add("two-oversized-back-to-back-buffer1-writer-held-once", vec![big.clone(), big.clone(), Call], 1, false);
+	add("behind-two-calls-buffer1-low-level-writer-held-once", vec![Call, Call, big.clone(), Call], 1, true);
+	add("behind-three-calls-buffer2-writer-held-once", vec![Call, Call, Call, huge.clone(), Call], 2, false);
+	if thorough {
+		add("three-oversized-buffer1-writer-point", vec![Call, big.clone(), big.clone(), huge.clone(), Call], 1, false);
+		add("behind-three-calls-buffer2-writer-point", vec![Call, Call, Call, big.clone(), Call], 2, false);
+		add("two-oversized-buffer1-low-level-writer-point", vec![Call, big.clone(), huge, Call], 1, true);
+		add("behind-four-calls-buffer3-writer-held-once", vec![Call, Call, Call, Call, big, Call], 3, false);
+	}
+	v
+}
+
+fn backlog_leg(rep: &Reporter) {
+	let thorough = rep.tier.thorough();
+	rep.assume("SCHED leg: one WebSocket peer over an in-memory duplex that keeps reading; the connection's writer task parks at the cfg point server:ws:send_task:before_send (every time, or only the first time), so the outgoing buffer (capacity 1–3) is full when the oversized frame is handled in some schedules");
+	for s in backlog_scenarios(thorough) {
+		sched::explore_auto(&s, rep, if thorough { 300_000 } else { 10_000 }, if thorough { 3 } else { 2 }, if thorough { 2 } else { 1 }, Duration::from_secs(if thorough { 200 } else { 5 }));
+	}
+}
+
+pub fn dyn_scenarios() -> Vec<Box<dyn sched::DynScenario>> {
+	backlog_scenarios(true).into_iter().map(|s| Box::new(s) as Box<dyn sched::DynScenario>).collect()
 }
